@@ -256,13 +256,13 @@ func pskConfigs(thorough bool) [][]string {
 	out = append(out, []string{"zZ9", "Key-Alpha1"}) // order must not matter
 	if thorough {
 		out = append(out,
-			[]string{"abc", "abcd"},          // one key is a prefix of another
-			[]string{"abcd", "abc", "ab"},    // chain
-			[]string{"Ab", "aB"},             // differ by case only
-			[]string{"dup", "dup"},           // duplicates
-			[]string{"", "x"},                // an empty key is a key
+			[]string{"abc", "abcd"},            // one key is a prefix of another
+			[]string{"abcd", "abc", "ab"},      // chain
+			[]string{"Ab", "aB"},               // differ by case only
+			[]string{"dup", "dup"},             // duplicates
+			[]string{"", "x"},                  // an empty key is a key
 			[]string{"key with space", "ключ"}, // inner spaces, non-ASCII
-			[]string{"a"},                    // single byte
+			[]string{"a"},                      // single byte
 			[]string{strings.Repeat("K", 64), strings.Repeat("K", 63) + "k"},
 			[]string{"s3cretB", "Key-Alpha1", "zZ9"},
 		)
